@@ -12,8 +12,9 @@
 (*    response is listed FIRST (`first`, the fallback of the primary-      *)
 (*    response choice) - a scenario is the pair (decl, first);             *)
 (*  * the BODY the server answers with is a call dimension: a JSON object  *)
-(*    that fits the declared schema, a JSON array, a JSON string, JSON     *)
-(*    null, an empty body, an HTML page (Bodies);                          *)
+(*    that fits the declared schema (also very long, also without content *)
+(*    type), a JSON array, a JSON string, JSON null, an empty body,        *)
+(*    whitespace, an HTML page, bytes that are not UTF-8 (Bodies);         *)
 (*  * the way the document writes the responses down (Modes: inline, by    *)
 (*    reference to components/responses, one shared component for several  *)
 (*    status codes and operations) is a rendering dimension: no outcome    *)
@@ -82,14 +83,21 @@ CodeKey(c, hasContent) == [k |-> "code", code |-> c, content |-> hasContent]
 DefaultKey(hasContent) == [k |-> "default", code |-> 0, content |-> hasContent]
 RangeKey(digit)        == [k |-> "range", code |-> digit, content |-> FALSE]
 
-\* the family of the design check and of the replay: 200 carries a JSON body, 204 does not; 404, 418, 500 are error
+\* the family of the design check and of the replay: 200 carries a JSON body, 204 does not; 404, 419, 500, 520 are error
 \* responses without a body, 410 is an error response WITH a body (a "problem" document)
 Universe == {CodeKey(200, TRUE), CodeKey(204, FALSE), CodeKey(302, FALSE), CodeKey(404, FALSE), CodeKey(410, TRUE),
-             CodeKey(418, FALSE), CodeKey(500, FALSE), DefaultKey(TRUE), DefaultKey(FALSE), RangeKey(4), RangeKey(5)}
+             CodeKey(419, FALSE), CodeKey(500, FALSE), CodeKey(520, FALSE), DefaultKey(TRUE), DefaultKey(FALSE), RangeKey(4), RangeKey(5)}
 
-\* what the fake server puts into the response; only "object" can be parsed into the declared model
-Bodies == {"object", "array", "string", "null", "empty", "html"}
-Parses(b) == b = "object"
+\* 404 / 500 are registered statuses with a named alias class; 419 / 520 are valid HTTP statuses that are NOT in the
+\* IANA registry / Python's http.HTTPStatus (alias `Error419`); the served statuses (MC_Dispatch!MCStatusReps) likewise mix
+\* registered and unregistered codes and the borders of every class
+
+\* what the fake server puts into the response: the property holds WHATEVER the body is.  "object" a JSON object that
+\* fits the declared schema; "long" the same with a 8 kB string; "json_noctype" the same without a content-type header;
+\* "array", "string", "null" other JSON; "empty" no body and no content type; "whitespace"; "html"; "nonutf8" bytes that
+\* are not UTF-8.  Only the first three can be parsed into the declared model
+Bodies == {"object", "long", "json_noctype", "array", "string", "null", "empty", "whitespace", "html", "nonutf8"}
+Parses(b) == b \in {"object", "long", "json_noctype"}
 
 Is2xx(s) == s \in 200..299
 Is4xx(s) == s \in 400..499
@@ -116,9 +124,17 @@ DeclSets(members, max) == {d \in UNION {kSubset(n, members) : n \in 1..max} : We
 Rank(m) == (CASE m.k = "code" -> 0 [] m.k = "range" -> 10000 [] OTHER -> 20000) + 2 * m.code + (IF m.content THEN 1 ELSE 0)
 CanonFirst(d) == CHOOSE m \in d : \A n \in d : Rank(m) <= Rank(n)
 HasSuccess(d) == \E c \in Codes(d) : Is2xx(c)
-\* which response is listed first: every choice (allOrders), or every choice only for documents that declare no
-\* success response at all (the ones for which "first listed" is the documented fallback) and the canonical one otherwise
-Firsts(d, allOrders) == IF allOrders \/ ~HasSuccess(d) THEN d ELSE {CanonFirst(d)}
+SumRank(d) == FoldSet(LAMBDA m, acc : acc + Rank(m), 0, d)
+\* one listing order other than the canonical one: the other member of a pair, the second or the third (in canonical
+\* order, picked by a weight of the declaration) of a triple
+AltFirst(d) ==
+  LET rest == d \ {CanonFirst(d)}
+      lo   == CHOOSE m \in rest : \A n \in rest : Rank(m) <= Rank(n)
+      hi   == CHOOSE m \in rest : \A n \in rest : Rank(m) >= Rank(n)
+  IN  IF rest = {} THEN CanonFirst(d) ELSE IF SumRank(d) % 2 = 0 THEN lo ELSE hi
+\* which response is listed first: every choice (allOrders); otherwise the canonical one, and for the documents that
+\* declare no success response at all (the ones for which "first listed" is a documented fallback rule) a second order
+Firsts(d, allOrders) == IF allOrders THEN d ELSE IF ~HasSuccess(d) THEN {CanonFirst(d), AltFirst(d)} ELSE {CanonFirst(d)}
 Scenarios(members, max, allOrders) ==
   UNION {{[d |-> d, first |-> f] : f \in Firsts(d, allOrders)} : d \in DeclSets(members, max)}
 
@@ -129,7 +145,7 @@ Scenarios(members, max, allOrders) ==
 \* parse to the next, and from one operation's to the next)
 Modes == <<"inline", "ref", "shared">>
 \* stratification: every scenario gets a rotation 0..2; rendering of the k-th package generated for it = Modes[(rot+k)%3+1]
-Rot(sc) == (FoldSet(LAMBDA m, acc : acc + Rank(m), 0, sc.d) + Rank(sc.first)) % 3
+Rot(sc) == (SumRank(sc.d) + Rank(sc.first)) % 3
 
 ClassName(s) == CASE s \in 100..199 -> "1xx" [] s \in 200..299 -> "2xx" [] s \in 300..399 -> "3xx"
                   [] s \in 400..499 -> "4xx" [] s \in 500..599 -> "5xx" [] OTHER -> "other"
